@@ -81,7 +81,7 @@ def run(tier, chk):
     for t in c05.sharing_trees(rnd, 800 if quick else 8000):
         v = dict(t, a=list(reversed(t['a']))) if t['o'] in AC else {'k': 'none'}
         pairs.append([t, v])
-    seg = segment_twin_trees(rnd, 300 if quick else 3000)
+    seg = segment_twin_trees(rnd, 300 if quick else 3000) + cancelling_sum_trees(rnd, 600 if quick else 6000)
     if quick and len(pairs) > 30000:
         rnd.shuffle(pairs)
         pairs = pairs[:30000]
@@ -118,6 +118,39 @@ def run(tier, chk):
                             'simp_e': r['runs'][0]['txt'][0], 'simp_variant': r['runs'][0]['txt'][1],
                             'simp_simp_e': EJ.show(r['runs'][0]['sse']) if r['runs'][0]['sse'].get('k') != 'none' else None})
     run_dumps(tier, chk, rnd)
+
+
+def cancelling_sum_trees(rnd, n):
+    """the same multiset of operands - terms together with their negations, duplicates, zeros - grouped and ordered in two
+    different ways: both must simplify to the identical expression (the variant's AC-equivalence is re-checked by T_C13)"""
+    def nest(o, w, items):
+        items = list(items)
+        rnd.shuffle(items)
+        while len(items) > 1:
+            k = rnd.choice([2, 2, 3]) if len(items) > 2 else 2
+            i = rnd.randrange(0, len(items) - k + 1)
+            grp = items[i:i + k]
+            items[i:i + k] = [{'k': 'op', 'w': w, 'o': o, 'u': 0, 'a': grp}]
+        return items[0]
+    out = []
+    while len(out) < n:
+        w = rnd.choice([8, 32])
+        ids = [{'k': 'id', 'w': w, 'n': c + str(w)} for c in 'xyz']
+        o = rnd.choice(['+', '+', '+', '^', '|', '&'])
+        terms = []
+        for t in rnd.sample(ids, rnd.choice([2, 2, 3])):
+            if rnd.random() < 0.3:
+                t = {'k': 'op', 'w': w, 'o': '*', 'u': 0, 'a': [t, rnd.choice(ids)]}
+            terms.append(t)
+            terms.append({'k': 'op', 'w': w, 'o': '-', 'u': 0, 'a': [t]} if o == '+' else t)     # its inverse / duplicate
+        if rnd.random() < 0.4:
+            terms.append({'k': 'int', 'w': w, 'v': core.limbs(rnd.choice([0, 1, 0x10]), w)})
+        if rnd.random() < 0.3:
+            terms.append(rnd.choice(ids))
+        a, b = nest(o, w, terms), nest(o, w, terms)
+        if a != b and a['k'] == 'op':
+            out.append([a, b])
+    return out
 
 
 def segment_twin_trees(rnd, n):
